@@ -215,7 +215,7 @@ func checkC15(r *rt.Run) *rViolation {
 		if e.Released == "" {
 			return &rViolation{"spi-never-released", fmt.Sprintf("%s call for height %d was still blocked after shutdown", e.Kind, e.H)}
 		}
-		if e.Released != "ctx" {
+		if e.Released != "ctx" || !e.PosExact {
 			continue
 		}
 		eh, evw := ctxPos(e)
@@ -275,6 +275,9 @@ func checkC15(r *rt.Run) *rViolation {
 			continue
 		}
 		for _, b := range r.Records[i+1].BlockedAtStart {
+			if !b.PosExact {
+				continue
+			}
 			bh, bv := ctxPos(b)
 			for _, prev := range r.Records[:i] {
 				left := false
